@@ -42,6 +42,17 @@ func (c03Suite) Gen(rng *Rng, tier string, w *bufio.Writer, stats *Stats) {
 		emit("corpus:"+c.Source, line)
 		stats.Inc("corpus")
 	}
+	// focused families: one scoping / renaming / suffix / aggregate shape per query, few other features (so that a new non-ok outcome gets a
+	// shape key of its own instead of hiding behind a known finding of a feature-rich random query)
+	for _, fam := range []struct {
+		name string
+		qs   []string
+	}{{"scope", focusedScopeShapes()}, {"with-rename", focusedWithShapes()}, {"suffix", focusedSuffixShapes()}, {"aggregate", focusedAggregateShapes()}} {
+		for _, q := range fam.qs {
+			emit("focused:"+fam.name, "q "+jsonQuote(q))
+			stats.Inc("focused." + fam.name)
+		}
+	}
 	perLevel, builders := 120, 150
 	if tier == "thorough" {
 		perLevel, builders = 4000, 3000
